@@ -358,7 +358,8 @@ Fixpoint validate_run (np : nat) (i : nat) (ss : list lstate) (progs : list (lis
     in the consumer step that returns an item, Close and cancel in their own
     steps; one thread moves at a time. *)
 
-Inductive kpp := KIdle | KChecked (i : item) | KInserted (i : item) (expect : bool).
+(* [live]: the item has not been delivered since this producer's locked insert *)
+Inductive kpp := KIdle | KChecked (i : item) | KInserted (i : item) (expect : bool) (live : bool).
 
 Record kss := mkKS {
   ks_aq : aq;
@@ -366,7 +367,8 @@ Record kss := mkKS {
   ks_cancelled : bool;
   ks_pp : list kpp;            (* per producer *)
   ks_progs : list (list item);
-  ks_blocked : bool }.         (* consumer parked in the select *)
+  ks_blocked : bool;           (* consumer parked in the select *)
+  ks_done : list item }.       (* pending items with an Insert that returned before Close was called *)
 
 Fixpoint nth_kpp (l : list kpp) (n : nat) : kpp :=
   match l, n with
@@ -388,7 +390,10 @@ Fixpoint set_kpp (l : list kpp) (n : nat) (p : kpp) : list kpp :=
 Definition may_wait (k : kss) : bool :=
   negb (ks_closed k) && negb (ks_cancelled k) &&
   (match ks_aq k with [] => true | _ => false end
-   || existsb (fun p => match p with KInserted _ true => true | _ => false end) (ks_pp k)).
+   || existsb (fun p => match p with KInserted _ true _ => true | _ => false end) (ks_pp k)).
+
+Definition ks_upd (k : kss) (q : aq) (cl ca : bool) (pp : list kpp) (pr : list (list item)) (bl : bool) : kss :=
+  mkKS q cl ca pp pr bl (ks_done k).
 
 Definition ksstep (k : kss) (t : tid) (e : sev) : kss + N :=
   match e with
@@ -403,7 +408,7 @@ Definition ksstep (k : kss) (t : tid) (e : sev) : kss + N :=
             match nth_prog (ks_progs k) n with
             | i :: rest =>
                 if ks_closed k then inr 2       (* a call that began after Close must be refused *)
-                else inl (mkKS (ks_aq k) (ks_closed k) (ks_cancelled k) (set_kpp (ks_pp k) n (KChecked i))
+                else inl (ks_upd k (ks_aq k) (ks_closed k) (ks_cancelled k) (set_kpp (ks_pp k) n (KChecked i))
                                (set_prog (ks_progs k) n rest) (ks_blocked k))
             | [] => inr 2
             end
@@ -411,47 +416,55 @@ Definition ksstep (k : kss) (t : tid) (e : sev) : kss + N :=
             match nth_prog (ks_progs k) n with
             | _ :: rest =>
                 if ks_closed k
-                then inl (mkKS (ks_aq k) (ks_closed k) (ks_cancelled k) (ks_pp k)
+                then inl (ks_upd k (ks_aq k) (ks_closed k) (ks_cancelled k) (ks_pp k)
                                (set_prog (ks_progs k) n rest) (ks_blocked k))
                 else inr 2                      (* refused while open *)
             | [] => inr 2
             end
         | KChecked i, SAt PtInserted =>
             let '(q', new) := aq_insert i (ks_aq k) in
-            inl (mkKS q' (ks_closed k) (ks_cancelled k) (set_kpp (ks_pp k) n (KInserted i new))
+            inl (ks_upd k q' (ks_closed k) (ks_cancelled k) (set_kpp (ks_pp k) n (KInserted i new true))
                       (ks_progs k) (ks_blocked k))
-        | KInserted i new, SRetIns (IOk b) =>
+        | KInserted i new live, SRetIns (IOk b) =>
             if Bool.eqb b new
             then inl (mkKS (ks_aq k) (ks_closed k) (ks_cancelled k) (set_kpp (ks_pp k) n KIdle)
-                           (ks_progs k) (ks_blocked k))
+                           (ks_progs k) (ks_blocked k)
+                           (if ks_closed k || negb live then ks_done k else i :: ks_done k))
             else inr 2
         | _, _ => inr 2
         end
-    | TC, SAt PtEmpty => inl (mkKS (ks_aq k) (ks_closed k) (ks_cancelled k) (ks_pp k) (ks_progs k) false)
+    | TC, SAt PtEmpty => inl (ks_upd k (ks_aq k) (ks_closed k) (ks_cancelled k) (ks_pp k) (ks_progs k) false)
     | TC, SBlocked =>
-        let k' := mkKS (ks_aq k) (ks_closed k) (ks_cancelled k) (ks_pp k) (ks_progs k) true in
+        let k' := ks_upd k (ks_aq k) (ks_closed k) (ks_cancelled k) (ks_pp k) (ks_progs k) true in
         if may_wait k' then inl k' else inr 5
     | TC, SRetNext (NItem j d) =>
         match ks_aq k with
         | (i, c) :: q' =>
             if N.eqb i j && N.eqb c d
-            then inl (mkKS q' (ks_closed k) (ks_cancelled k) (ks_pp k) (ks_progs k) false)
+            then inl (mkKS q' (ks_closed k) (ks_cancelled k)
+                           (map (fun p => match p with
+                                          | KInserted x ex _ => if N.eqb x i then KInserted x ex false else p
+                                          | _ => p end) (ks_pp k))
+                           (ks_progs k) false
+                           (filter (fun x => negb (N.eqb x i)) (ks_done k)))
             else inr 2
         | [] => inr 2
         end
     | TC, SRetNext NClosed =>
         if ks_closed k
-        then match ks_aq k with
-             | [] => inl (mkKS [] true (ks_cancelled k) (ks_pp k) (ks_progs k) false)
-             | _ => inr 3                        (* told closed while inserts are undelivered *)
-             end
+        then (* told closed: every insertion that completed before the close
+                must have been delivered (an insert overlapping Close may be
+                left behind; the model side still objects to that) *)
+             if existsb (fun ic => existsb (N.eqb (fst ic)) (ks_done k)) (ks_aq k)
+             then inr 3
+             else inl (ks_upd k (ks_aq k) true (ks_cancelled k) (ks_pp k) (ks_progs k) false)
         else inr 2
     | TC, SRetNext NCtx =>
         if ks_cancelled k
-        then inl (mkKS (ks_aq k) (ks_closed k) true (ks_pp k) (ks_progs k) false)
+        then inl (ks_upd k (ks_aq k) (ks_closed k) true (ks_pp k) (ks_progs k) false)
         else inr 2
-    | TK, SRet => inl (mkKS (ks_aq k) true (ks_cancelled k) (ks_pp k) (ks_progs k) (ks_blocked k))
-    | TX, SRet => inl (mkKS (ks_aq k) (ks_closed k) true (ks_pp k) (ks_progs k) (ks_blocked k))
+    | TK, SRet => inl (ks_upd k (ks_aq k) true (ks_cancelled k) (ks_pp k) (ks_progs k) (ks_blocked k))
+    | TX, SRet => inl (ks_upd k (ks_aq k) (ks_closed k) true (ks_pp k) (ks_progs k) (ks_blocked k))
     | _, _ => inr 2
     end
   end.
@@ -493,7 +506,7 @@ Definition check_case (c : case) : list (nat * N) :=
   | CSched progs steps fb fl =>
       let np := List.length progs in
       validate_run np 0 [l_init] progs false steps fb fl
-      ++ ks_run 0 (mkKS [] false false (map (fun _ => KIdle) progs) progs false) steps fb fl
+      ++ ks_run 0 (mkKS [] false false (map (fun _ => KIdle) progs) progs false []) steps fb fl
   | CStress ins del cs hang => check_stress ins del cs hang
   end.
 
